@@ -132,11 +132,14 @@ func (r *reader) ConsumeByKey(key []byte, keyHash []byte, offset, maxCount int64
 		return OffsetInvalid, nil, err
 	}
 
+	// the next offset is read before the keys: a message published to the head in between
+	// is then either returned or still at or after the returned offset, never skipped
+	nextOffset, err := ix.GetNextOffset()
+	if err != nil {
+		return OffsetInvalid, nil, err
+	}
+
 	if offset == OffsetNewest {
-		nextOffset, err := ix.GetNextOffset()
-		if err != nil {
-			return OffsetInvalid, nil, err
-		}
 		return nextOffset, nil, nil
 	}
 
@@ -146,10 +149,6 @@ func (r *reader) ConsumeByKey(key []byte, keyHash []byte, offset, maxCount int64
 	case nil:
 		break
 	case index.ErrKeyNotFound:
-		nextOffset, err := ix.GetNextOffset()
-		if err != nil {
-			return OffsetInvalid, nil, err
-		}
 		return nextOffset, nil, nil
 	default:
 		return OffsetInvalid, nil, err
@@ -179,10 +178,6 @@ func (r *reader) ConsumeByKey(key []byte, keyHash []byte, offset, maxCount int64
 	}
 
 	if len(msgs) == 0 {
-		nextOffset, err := ix.GetNextOffset()
-		if err != nil {
-			return OffsetInvalid, nil, err
-		}
 		return nextOffset, nil, nil
 	}
 
